@@ -52,6 +52,18 @@ def run(ctx):
     check_ws_identity(ctx)
     check_is_keyword_upper(ctx)
     check_newline_sensitivity(ctx)
+    # a pass that resumes from a stale index skips as many siblings as the grouping removed -- a number that depends on how many
+    # whitespace tokens separated the operands, so the tree shape would depend on spacing
+    ctx.rule('R11.8', 'index bookkeeping: after a grouping the hand-written passes resume at the index of the new group (whitespace count cannot shift the scan)', floor=7)
+    from . import c03
+    before = len(ctx.obs)
+    saved = {k: ctx.rules.get(k) for k in ('R3.4b',)}
+    ctx.rule('R3.4b', '', floor=0)
+    c03.check_resume(ctx)
+    for o in ctx.obs[before:]:
+        o.rule = 'R11.8'
+    ctx.rules.pop('R3.4b', None)
+    ctx.floors.pop('R3.4b', None)
 
 
 def match_descriptor(ctx, desc):
